@@ -91,9 +91,11 @@ def run_property(prop, tier, only=None, quiet=False):
     except AnalysisBroken as e:
         print('ANALYSIS-BROKEN property=%s: %s' % (prop, e))
         return 2
-    except Exception:
+    except Exception as e:
         traceback.print_exc()
-        print('ANALYSIS-BROKEN property=%s: internal error in the checker (see traceback)' % prop)
+        tb = traceback.extract_tb(e.__traceback__)
+        where = '%s:%d' % (os.path.basename(tb[-1].filename), tb[-1].lineno) if tb else '?'
+        print('ANALYSIS-BROKEN property=%s: internal error in the checker (see traceback): %s: %s at %s' % (prop, type(e).__name__, str(e)[:200], where))
         return 2
 
     known = [k for k in load_known()['findings'] if k['property'] == prop]
